@@ -36,6 +36,7 @@ RULE = ("retrospective and prospective runs of the real script over a fake pipel
         "Non-trivial: at least one interruption that hit after the output directory existed.")
 
 M = 2147483647
+KNOWN_SIG = "C19:prospective-marker-first"
 
 
 class Interrupt(BaseException):
@@ -456,7 +457,10 @@ class Run:
         self.current_launch = None
 
     # -- driving -------------------------------------------------------------------------------------
-    def go(self, max_invocations=120):
+    def go(self, max_invocations=None):
+        if max_invocations is None:
+            steps = self.cfg["P"] + 1 if self.cfg["mode"] == "r" else self.cfg["B"]
+            max_invocations = 2 * steps + 8 + 4 * len(self.crashes)
         for _ in range(self.pre):
             crashes, self.crashes = self.crashes, []
             self._process(max_invocations)
@@ -570,11 +574,17 @@ def judge(run, ref):
     # walk the trace
     completed = []
     first_done = ref_done[0] if ref_done else (0, 0)
+    done_so_far = set()
     for ev in run.events:
-        if ev[0] in "RU":
+        if ev[0] == "C":
+            parts = ev[1:].split("/")
+            done_so_far.add((int(parts[1]), int(parts[2])))
+        elif ev[0] in "RU":
             st = tuple(int(x) for x in ev[1:].split(".")) if ev[1:] != "?" else None
-            if st in completed:
-                out.append(("deleted", "a completed step directory is deleted", ev, "completed steps are never removed"))
+            if st in done_so_far:
+                out.append(("deleted", "the directory of a completed step is deleted (%s)" % ("by the script's rmtree" if ev[0] == "R" else "on the script's advice"),
+                            ev, "completed steps are never removed"))
+                break
     idx = 0
     for st, text, done, l in run.launches:
         if st not in ref_launch:
@@ -594,6 +604,19 @@ def judge(run, ref):
             if scr is None or pred is None or (scr[0], scr[1]) != pred or scr[2] != (1, 0):
                 out.append(("predecessor", "a step is started from a screen that is not the output (advanced screen) of its immediate predecessor",
                             show_ref(scr), "advanced_screen.h5 of step %s" % (list(pred) if pred else None)))
+        if l["wf"] == 2:
+            # absolute oracle: a later plate of an iteration is selected with the model trained by plate 0 of that
+            # iteration and must exclude exactly the plates selected so far in that iteration
+            mates = {s2: l2 for s2, _t2, d2, l2 in run.launches if d2 and s2[0] == st[0] and s2[1] < st[1]}
+            want_ex = sorted(c for s2, l2 in mates.items() for k, c in fake_pubs(run.cfg, l2) if k == (6, 0))
+            if sorted(l["excludes"] or []) != want_ex or set(s2[1] for s2 in mates) != set(range(st[1])):
+                out.append(("inputs", "a plate is selected without excluding exactly the plates already selected in its iteration",
+                            l["excludes"], want_ex))
+            if (st[0], 0) in mates:
+                want_ch = sorted((k, c) for k, c in fake_pubs(run.cfg, mates[(st[0], 0)]) if k[0] in (4, 5))
+                if sorted(l["chains"]) != want_ch:
+                    out.append(("inputs", "a plate is selected with other posterior samples / distance chunks than plate 0 of its iteration published",
+                                [show_file(k, c) for k, c in sorted(l["chains"])], [show_file(k, c) for k, c in want_ch]))
         if done:
             completed.append(st)
         idx += 1
@@ -602,12 +625,14 @@ def judge(run, ref):
     if run.tree != ref.tree and run.status == "ok":
         out.append(("tree", "the final output directory (recorded selections, screens, markers) differs from the uninterrupted run",
                     run.tree[:600], ref.tree[:600]))
+    prio = ["deleted", "twice", "skipped", "inputs", "predecessor", "extra", "sequence", "tree", "finish", "reference"]
+    out.sort(key=lambda f: prio.index(f[0]))
     return out
 
 
 def signature(run, key):
     if run.cfg["mode"] == "p" and run.cfg["mfirst"] and run.in_window:
-        return "C19:prospective-marker-first"
+        return KNOWN_SIG
     return "C19:" + key
 
 
@@ -755,7 +780,9 @@ def configs(ctx):
     v = 0
     for B in Bs:
         for P in Ps:
-            out.append(({"mode": "r", "B": B, "P": P, "nch": 2 if P < 7 else 1, "nck": 2 if P < 5 else 1, "variant": v % 3, "mfirst": False}, 0))
+            for extra in ((0,) if quick or P > 4 else (0, 1, 2)):
+                out.append(({"mode": "r", "B": B, "P": P, "nch": 2 if P < 7 else 1, "nck": 2 if P < 5 else 1,
+                             "variant": (v + extra) % 3, "mfirst": False}, 0))
             v += 1
         for mfirst in (True, False):
             for pre in (0, 1):
@@ -777,6 +804,9 @@ def explore(cfg, pre, pairs, workdir):
                         "segments": run.segments, "window": run.in_window})
         return run, ref
 
+    def new_failures():
+        return sum(1 for r in results if any(sg != KNOWN_SIG for sg in r["sig"]))
+
     run0, ref = one([])
     if ref.status != "ok":
         return results
@@ -786,6 +816,10 @@ def explore(cfg, pre, pairs, workdir):
         if pairs and len(r1.segments) > 1:
             for g2 in range(r1.segments[1]):
                 one([g1, g2])
+                if new_failures() >= 5:
+                    return results      # enough concrete replays for this configuration
+        if new_failures() >= 5:
+            return results
     return results
 
 
@@ -803,13 +837,14 @@ def run(ctx, res):
     mod = load_script()
     base = tempfile.mkdtemp(prefix="c19run_", dir=workdir_base())
     lines, expect, metas = [], [], []
+    failures = []
     try:
         cfgs = configs(ctx)
         pairs_all = not (ctx.tier == "quick" and ctx.mode != "search")
         jobs = []
         for cfg, pre in cfgs:
             # quick: pairs only for the smallest configurations
-            pairs = pairs_all or (cfg["P"] <= 2 and cfg["B"] <= 2 and cfg["mode"] == "r")
+            pairs = pairs_all or (cfg["mode"] == "r" and cfg["P"] <= 3) or (cfg["mode"] == "p" and pre == 0 and cfg["B"] <= 2)
             jobs.append((cfg, pre, pairs, base))
         if pairs_all:
             import multiprocessing
@@ -832,10 +867,20 @@ def run(ctx, res):
                     res.sample({"config": describe(cfg), "earlier_runs": pre, "interruptions_at_action": r["case"]["crashes"],
                                 "actions_between_interruptions": r["segments"], "trace": r["observed"][:400]}, limit=4)
                 for f, sig in zip(r["findings"], r["sig"]):
-                    res.fail("%s [%s]" % (f[1], describe(cfg)), r["case"], f[2], f[3], signature=sig)
+                    failures.append((sig == KNOWN_SIG, "%s [%s]" % (f[1], describe(cfg)), r["case"], f[2], f[3], sig))
                 lines.append(r["line"])
                 expect.append(r["observed"])
                 metas.append(r["case"])
+        # Result keeps at most 50 failures: report the ones that are not the known finding first
+        failures.sort(key=lambda f: f[0])
+        n_known = 0
+        for known, what, case, obs, req, sig in failures:
+            if known:
+                n_known += 1
+                if n_known > 5:
+                    res.count("known-finding failures not listed individually")
+                    continue
+            res.fail(what, case, obs, req, signature=sig)
         # examine on random trees
         rng = ctx.subrng("trees")
         n_trees = ctx.scale(300, 4000, 1500)
